@@ -533,9 +533,24 @@ func (c *candidateBase) transportAddressEqual(other Candidate) bool {
 	}
 
 	return c.NetworkType() == other.NetworkType() &&
-		c.Address() == other.Address() &&
+		candidateAddressEqual(c.Address(), other.Address()) &&
 		c.Port() == other.Port() &&
 		c.TCPType() == other.TCPType()
+}
+
+// candidateAddressEqual compares the address text of two candidates. IP literals are
+// compared in canonical form, so that an IPv4 address and its IPv4-mapped IPv6
+// spelling name the same transport address, as they do everywhere else in the agent;
+// anything else (mDNS names) is compared as text.
+func candidateAddressEqual(a, b string) bool {
+	if a == b {
+		return true
+	}
+
+	ipA, errA := netip.ParseAddr(a)
+	ipB, errB := netip.ParseAddr(b)
+
+	return errA == nil && errB == nil && canonicalAddr(ipA) == canonicalAddr(ipB)
 }
 
 // Equal is used to compare two candidateBases.
